@@ -28,8 +28,20 @@ type specEnv struct {
 	o    int                // next output number
 	sql  strings.Builder
 	out  []string // name=value
+	typs []string // dynamic Go type of each value, parallel to out
 	ok   bool
 	why  string
+}
+
+// dynType: the Go type of the value an argument expression denotes (what val.Interface() yields).
+func dynType(v reflect.Value) string {
+	if v.IsValid() && v.Kind() == reflect.Interface {
+		v = v.Elem()
+	}
+	if !v.IsValid() {
+		return "<nil>"
+	}
+	return v.Type().String()
 }
 
 func (e *specEnv) abstain(why string) { e.ok = false; e.why = why }
@@ -241,10 +253,12 @@ func (e *specEnv) insert(cols []specCol) {
 				cells = append(cells, fmt.Sprintf("@sqlair_%d", b.first))
 				if r == 0 {
 					e.out = append(e.out, fmt.Sprintf("sqlair_%d=%s", b.first, printVal(b.vals[0])))
+					e.typs = append(e.typs, dynType(b.vals[0]))
 				}
 			default:
 				cells = append(cells, fmt.Sprintf("@sqlair_%d", b.first+r))
 				e.out = append(e.out, fmt.Sprintf("sqlair_%d=%s", b.first+r, printVal(b.vals[r])))
+				e.typs = append(e.typs, dynType(b.vals[r]))
 			}
 		}
 		e.sql.WriteString("(" + strings.Join(cells, ", ") + ")")
@@ -274,10 +288,10 @@ func colString(table, col string) string {
 
 // specExpected computes the expected SQL and arguments, piece by piece; pieces[i] is the text of
 // segment i and kinds[i] its kind.
-func specExpected(dump string, samples []any, args []any) (pieces []string, kinds []string, out []string, ok bool, why string) {
+func specExpected(dump string, samples []any, args []any) (pieces []string, kinds []string, out []string, typs []string, ok bool, why string) {
 	am, good := specArgs(args)
 	if !good {
-		return nil, nil, nil, false, "arguments outside the oracle's reach"
+		return nil, nil, nil, nil, false, "arguments outside the oracle's reach"
 	}
 	e := &specEnv{args: am, ok: true}
 	for _, sg := range segmentsFull(dump) {
@@ -288,27 +302,29 @@ func specExpected(dump string, samples []any, args []any) (pieces []string, kind
 		case "IN":
 			a, have := am[sg.acc[0][0]]
 			if !have || !a.single.IsValid() {
-				return nil, nil, nil, false, "input outside an insert without a single argument"
+				return nil, nil, nil, nil, false, "input outside an insert without a single argument"
 			}
 			v, found := memberOf(a.single, sg.acc[0][1])
 			if !found {
-				return nil, nil, nil, false, "member value not available"
+				return nil, nil, nil, nil, false, "member value not available"
 			}
 			if t := a.single.Type(); t.Kind() == reflect.Struct && tagOmit(t, sg.acc[0][1]) && v.IsZero() {
-				return nil, nil, nil, false, "must-reject: explicit omitempty zero"
+				return nil, nil, nil, nil, false, "must-reject: explicit omitempty zero"
 			}
 			e.sql.WriteString(fmt.Sprintf("@sqlair_%d", e.n))
 			e.out = append(e.out, fmt.Sprintf("sqlair_%d=%s", e.n, printVal(v)))
+			e.typs = append(e.typs, dynType(v))
 			e.n++
 		case "SL":
 			a, have := am[sg.sliceType]
 			if !have || !a.single.IsValid() || a.single.Kind() != reflect.Slice {
-				return nil, nil, nil, false, "slice argument not available"
+				return nil, nil, nil, nil, false, "slice argument not available"
 			}
 			var ps []string
 			for i := 0; i < a.single.Len(); i++ {
 				ps = append(ps, fmt.Sprintf("@sqlair_%d", e.n))
 				e.out = append(e.out, fmt.Sprintf("sqlair_%d=%s", e.n, printVal(a.single.Index(i))))
+				e.typs = append(e.typs, dynType(a.single.Index(i)))
 				e.n++
 			}
 			e.sql.WriteString(strings.Join(ps, ", "))
@@ -336,7 +352,7 @@ func specExpected(dump string, samples []any, args []any) (pieces []string, kind
 					if t[1] == "*" {
 						st, have := sampleType(samples, t[0])
 						if !have || st.Kind() != reflect.Struct {
-							return nil, nil, nil, false, "sample not available"
+							return nil, nil, nil, nil, false, "sample not available"
 						}
 						for _, tg := range sortedTags(st) {
 							cols = append(cols, colString(pref, tg))
@@ -366,7 +382,7 @@ func specExpected(dump string, samples []any, args []any) (pieces []string, kind
 				if s[1] == "*" {
 					st, have := sampleType(samples, s[0])
 					if !have || st.Kind() != reflect.Struct {
-						return nil, nil, nil, false, "sample not available"
+						return nil, nil, nil, nil, false, "sample not available"
 					}
 					for _, tg := range sortedTags(st) {
 						cols = append(cols, specCol{name: tg, typ: s[0], member: tg, star: true})
@@ -414,14 +430,14 @@ func specExpected(dump string, samples []any, args []any) (pieces []string, kind
 				case len(prov) == 0 && mapType != "":
 					cols = append(cols, specCol{name: name, typ: mapType, member: name})
 				default:
-					return nil, nil, nil, false, "column provider not determined by the texts"
+					return nil, nil, nil, nil, false, "column provider not determined by the texts"
 				}
 			}
 			e.insert(cols)
 		case "BI":
 			var cols []specCol
 			if len(sg.cols) != len(sg.vals) {
-				return nil, nil, nil, false, "counts differ"
+				return nil, nil, nil, nil, false, "counts differ"
 			}
 			for i, c := range sg.cols {
 				name := c.col
@@ -437,15 +453,15 @@ func specExpected(dump string, samples []any, args []any) (pieces []string, kind
 			}
 			e.insert(cols)
 		default:
-			return nil, nil, nil, false, "unknown segment kind"
+			return nil, nil, nil, nil, false, "unknown segment kind"
 		}
 		if !e.ok {
-			return nil, nil, nil, false, e.why
+			return nil, nil, nil, nil, false, e.why
 		}
 		pieces = append(pieces, e.sql.String())
 		kinds = append(kinds, sg.kind)
 	}
-	return pieces, kinds, e.out, true, ""
+	return pieces, kinds, e.out, e.typs, true, ""
 }
 
 var propOfKind = map[string]string{"B": "C01", "IN": "C03", "SL": "C03", "AI": "C04", "CI": "C04", "BI": "C04", "OUT": "C05"}
@@ -466,7 +482,7 @@ func specOracle(c bindCase, o bindObs, st *bindStats, add func(violation)) {
 	if err != nil {
 		return
 	}
-	pieces, kinds, want, ok, why := specExpected(dump, c.samples, c.args)
+	pieces, kinds, want, wantTypes, ok, why := specExpected(dump, c.samples, c.args)
 	qh := hx(c.query)
 	if !ok {
 		if accepted && strings.HasPrefix(why, "must-reject") {
@@ -512,6 +528,18 @@ func specOracle(c bindCase, o bindObs, st *bindStats, add func(violation)) {
 		add(violation{prop, "arguments-differ-from-the-property", qh, fmt.Sprintf("expected %v, driver received %v", want, o.args)})
 		if prop == "C04" {
 			add(violation{"C03", "arguments-differ-from-the-property", qh, fmt.Sprintf("expected %v, driver received %v", want, o.args)})
+		}
+		return
+	}
+	// the values print alike: they are also of the Go type the field, key or element holds (a named string handed
+	// over as a plain string is another value to a driver: its Value method is gone)
+	if len(wantTypes) == len(o.argTypes) {
+		for i := range wantTypes {
+			if wantTypes[i] != o.argTypes[i] {
+				add(violation{"C03", "argument-type-differs-from-the-value-supplied", qh,
+					fmt.Sprintf("%s: the value supplied is a %s, the driver received a %s", want[i], wantTypes[i], o.argTypes[i])})
+				return
+			}
 		}
 	}
 }
